@@ -1714,7 +1714,11 @@ class Interp:
                         reflip = True
                 lsub.append((T, m))
             if reflip:
+                # the meaning of a loop-head symbol changed (stride, signedness): what was harvested from the body in the
+                # old units is void - harvest again
                 templ = None
+                harvested = False
+                partners = []
                 continue
             dbg = os.environ.get('VERIF_DEBUG_LOOPS')
             if dbg:
@@ -1735,6 +1739,8 @@ class Interp:
             if len(keep) != len(templ):
                 templ = keep
                 continue
+            if dbg:
+                print('KEPT %s/%s: %s' % (fn.name, header.name, [repr(c) for c in cands]))
             break
         else:
             raise AnalysisBroken('loop invariant inference did not converge in %s (header %s)'
